@@ -463,7 +463,7 @@ def wide_loop_cfgs(draw):
             if i + 2 < m and draw(st.integers(0, 3)) == 0:
                 raw[t_].append(chain[draw(st.integers(i + 2, m - 1))])
         return repair(nxt[0], raw)
-    h = draw(st.integers(3, 5))
+    h = draw(st.sampled_from([1, 1, 2, 3, 4, 5]))
     x = draw(st.integers(3, 5))
     extra = draw(st.integers(0, 3))
     arcs = draw(st.integers(h, h + 2))
@@ -504,6 +504,15 @@ def wide_loop_cfgs(draw):
         k = draw(st.integers(0, 3))
         raw[e] = [] if k == 0 else [join] if k in (1, 2) else [exits[(j + 1) % x]]
     raw[join] = []
+    if draw(st.integers(0, 2)) == 0:
+        # the whole loop is one arm of a branch; the other arm enters the exit blocks' chain as well
+        top = new()
+        other = new()
+        raw[other] = list(dict.fromkeys(draw(st.lists(st.sampled_from(exits + [join]), min_size=1, max_size=2))))
+        order = [top] + [k for k in sorted(raw) if k != top]
+        raw[top] = [root, other] if draw(st.booleans()) else [other, root]
+        ren = {o: i for i, o in enumerate(order)}
+        raw = {ren[u]: [ren[t] for t in raw[u]] for u in order}
     return repair(nxt[0], raw)
 
 
